@@ -58,7 +58,7 @@ def floors(tier):
     return {"histories": 1500, "configs_run": 9000, "operations": 50000, "handler_successes": 5000, "handler_failures": 1000,
             "plan:ok": 300, "plan:fail_once": 300, "plan:fail_always": 300, "docs_with_3plus_fragments": 500,
             "metaschema_refs_resolved": 2000, "store_doc_refs_resolved": 2000, "evictions_observed": 200,
-            "wrapped_as_RefResolutionError": 1000, "handler_docs_declaring_an_id": 500, "near_identical_url_pairs": 500, "documents_via_urlopen_transport": 300, "documents_via_requests_transport": 300, "transport_failed_first": 100, "direct_retrievals": 300,
+            "wrapped_as_RefResolutionError": 1000, "handler_docs_declaring_an_id": 500, "near_identical_url_pairs": 500, "documents_via_urlopen_transport": 300, "documents_via_requests_transport": 300, "transport_failed_first": 100, "direct_retrievals": 300, "scheme_table_changes": 8,
             "direct_resolutions_content_checked": 5000}
 
 
@@ -383,8 +383,65 @@ def check_history(ctx, w, ops, plan):
     ctx.count("store_doc_refs_resolved", sum(1 for op in ops if str(op.get("ref", "")).startswith("http://store.example")) * len(CONFIGS))
 
 
+def scheme_table_change(ctx):
+    """The program teaches urllib a new hierarchical scheme (the well-known `uses_relative.append(...)` idiom) between
+    two uses of the library: afterwards every cache configuration of a NEW resolver gives the same answers - nothing that
+    an earlier, dead resolver worked out under the old tables may be served to the default configuration only."""
+    import urllib.parse as UP
+    for d in impl.DRAFTS:
+        cls = impl.CLS[d]
+        for n_, scheme in enumerate(("xq", "vf-x")):
+            base = "%s://svc.example/lib/" % scheme
+            docs = {base + "doc.json": {"properties": {"v": {"$ref": "other.json"}, "w": {"items": {"$ref": "sub/third.json#/definitions/t"}}}},
+                    base + "other.json": {"type": "integer"}, base + "sub/third.json": {"definitions": {"t": {"type": "string"}}}}
+            schema = {"properties": {"a": {"$ref": base + "doc.json"}}}
+            insts = [{"a": {"v": "s"}}, {"a": {"v": 1, "w": [1, "s"]}}, {"a": {}}]
+
+            def run_all(config):
+                cr, cache = config
+                box = []
+                kw = {}
+                if cache == "passthrough":
+                    kw = dict(urljoin_cache=urljoin, remote_cache=lambda url: box[0].resolve_from_url(url))
+                elif cache == "tiny":
+                    kw = dict(urljoin_cache=lru_cache(1)(urljoin), remote_cache=lru_cache(1)(lambda url: box[0].resolve_from_url(url)))
+                r = RefResolver.from_schema(schema, id_of=cls.ID_OF, cache_remote=cr, handlers={scheme: lambda u: docs[u.split("#")[0]]}, **kw)
+                box.append(r)
+                v = cls(schema, resolver=r)
+                out = []
+                for inst in insts:
+                    try:
+                        out.append(("ok", fps(v.iter_errors(inst))))
+                    except X.RefResolutionError:
+                        out.append(("RefResolutionError", None))
+                    except Exception as e:
+                        out.append(("exc:" + type(e).__name__, None))
+                return out
+            saved = (list(UP.uses_relative), list(UP.uses_netloc))
+            try:
+                before = run_all((True, "default"))           # under the old tables (its result is not judged)
+                UP.uses_relative.append(scheme)
+                UP.uses_netloc.append(scheme)
+                outs = {cfg: run_all(cfg) for cfg in CONFIGS}
+            finally:
+                UP.uses_relative[:], UP.uses_netloc[:] = saved
+            ctx.count("scheme_table_changes")
+            ctx.case([d, scheme, "scheme-table-change"])
+            base_out = outs[CONFIGS[1]]                      # (cache_remote=True, pass-through): no cache at all
+            for cfg, out in outs.items():
+                if out != base_out:
+                    ctx.violation("results-differ-between-cache-configurations",
+                                  {"draft": d, "schema": schema, "scheme": scheme, "config": {"cache_remote": cfg[0], "caches": cfg[1]},
+                                   "scheme_table_change": True, "before_registration": str(before)[:200]},
+                                  "after the scheme was registered with urllib, a new resolver with %r gives %s, one without caches %s" % (
+                                      cfg, str(out)[:150], str(base_out)[:150]))
+                    break
+
+
 def run(ctx):
     impl.quiet()
+    if ctx.shard == 0:
+        scheme_table_change(ctx)
     rng = ctx.rng
     for i in range(ctx.scale(1000, 12000)):
         d = impl.DRAFTS[i % 4]
@@ -399,6 +456,9 @@ def run(ctx):
 def replay(ctx, rec):
     impl.quiet()
     c = rec["case"]
+    if c.get("scheme_table_change"):
+        scheme_table_change(ctx)
+        return
     w = dict(d=c["draft"], schema=c["schema"], hdocs=c["handler_docs"], store=c["store"], instances=c["instances"],
              refs=[], frag3=0, metas=[], udocs=c.get("urlopen_docs") or {}, transport_fails_first=c.get("transport_fails_first", False))
     check_history(ctx, w, c["history"], c["plan"])
